@@ -6,9 +6,10 @@ import (
 	"verif/harness/rescorr"
 )
 
-// corpus: hand-written sets. The first ones exercise the shapes the property names; the last
-// ones are the witnesses of the documented limits (names no path can spell, nodes filed in the
-// Dir of an rpc): goyang accepts them, Find cannot reach them, the specification's wfKeys is false.
+// corpus: hand-written sets. The first ones exercise the shapes the property names; then the
+// witnesses of the documented limit D17-L1 (names no path can spell): goyang accepts them, Find
+// cannot reach them, the specification's wfKeys is false; last the augment into an rpc node itself,
+// which Process must reject.
 func corpus() []rescorr.Case {
 	mk := func(label string, files ...string) rescorr.Case {
 		c := rescorr.Case{Extra: map[string]string{"seed": "1", "max_pairs": "4000", "label": label}}
@@ -83,12 +84,18 @@ func corpus() []rescorr.Case {
   container c { leaf "p:x" { type string; } leaf ok { type string; } }
 }
 `),
-		mk("limit:augment-into-rpc", "m.yang", `module m { namespace "urn:m"; prefix pm;
-  rpc r { input { leaf i { type string; } } }
-  augment "/pm:r" { leaf stray { type string; } }
-}
-`),
 	}
+	// repaired (049247d): an augment whose target is the rpc itself used to file `stray` in the rpc's
+	// Dir, out of reach of every path; Process must now report an error
+	rej := mk("augment-into-rpc-rejected", "m.yang", `module m { namespace "urn:m"; prefix pm;
+  rpc r { input { leaf i { type string; } } }
+  container c { action act { input { leaf j { type string; } } } }
+  augment "/pm:r" { leaf stray { type string; } }
+  augment "/pm:c/pm:act" { leaf stray2 { type string; } }
+}
+`)
+	rej.Extra["expect_errors"] = "1"
+	cases = append(cases, rej)
 	for i := range cases {
 		cases[i].Extra["label"] = strconv.Itoa(i) + ":" + cases[i].Extra["label"]
 	}
